@@ -296,6 +296,20 @@ def r3_macro_one_name_per_variant(ctx):
                                 rsl, _ = backward_slice(b, op_place(at['args'][0])['l'], Defs(b))
                                 zips = sorted({n.get('ln') for c, _, n in slice_calls(rsl) if c.endswith('Iterator::zip')})
                                 src = ('zip', tuple(zips)) if len(zips) == 1 and from_param else None
+                if src is None and from_param:
+                    # the item of the iteration is a struct that holds the variant and its name side by side (`ProfileVariant { ident, profile_name }`):
+                    # the interpolated string is a field of the closure's own item — the pairing cannot drift
+                    flds = set()
+                    for _, _, nd in sl:
+                        rv = nd.get('rv')
+                        q = (rv.get('pl') if rv and rv['k'] in ('ref', 'cfd') else (op_place(rv['op']) if rv and rv['k'] == 'use' else None)) if rv else None
+                        if q is not None and q['l'] == 2:
+                            fs = [e[2:] for e in q.get('p', []) if e.startswith('f:')]
+                            fo = q.get('fo') or []
+                            if fs:
+                                flds.add(((fo[0] if fo else '?').split('::')[-1].split('<')[0], fs[0]))
+                    if len(flds) == 1:
+                        src = ('field',) + list(flds)[0]
                 sources[(x.nid, bb)] = src if src else ('unknown', x.loc(bb, t))
     ctx.floor('C18.R3', 'String interpolations in the per-variant templates', len(sources), 2)
     # the explicit `#[px(profile = "..")]` name is used as written: case conversion applies to the identifier-derived default only
@@ -316,7 +330,7 @@ def r3_macro_one_name_per_variant(ctx):
                'string conversions applied to a value that can come from the explicit `profile = ".."` attribute: %s (the name the user wrote is the name of '
                'the file and the value of PX_PROFILE)' % (bad or 'none'))
     vals = set(sources.values())
-    ok = len(vals) == 1 and all(v[0] in ('local', 'zip') and v[1] not in (None, ()) for v in vals)
+    ok = len(vals) == 1 and all(v[0] in ('local', 'zip', 'field') and v[1] not in (None, ()) for v in vals)
     ctx.ob('C18.R3', 'one-name-per-variant', ok, b.loc(),
            'sources of the String interpolated in the per-variant match arms: %s (%s)' % (
                sorted(str(v) for v in vals), 'one and the same' if ok else 'DIFFERENT (or unrecognised) strings for parsing and for naming'))
